@@ -140,9 +140,12 @@ def main():
         "setup_cmd": "./setup.sh",
         "hooks": {
             "guard": "PYCAPTION_VERIF",
-            "enable": "no hooks are compiled in: every observation is made through the public API (DESIGN.md 3.3); the variable is reserved",
+            "enable": "pure Python, nothing to build: with PYCAPTION_VERIF=1 in the environment when pycaption.scc is imported, "
+                      "SCCReader appends one record per consumed line / word / end of read() to pycaption.scc._VERIF_LOG "
+                      "(used only by the extension check ./check X01, which sets the variable itself; the twenty property "
+                      "checks observe pycaption through its public API and run with the guard off)",
             "baseline_off_cmd": BASE,
-            "source_commits": [],
+            "source_commits": ["60aff6b"],
             "add_only": True,
         },
         "engines": [{
